@@ -208,6 +208,15 @@ func lockHookImpl(fr *Frame, st *State, in ssa.Instruction, ct *Contract, recv *
 				}
 				c.addFact(st, t)
 			}
+			for _, m := range gd.g.Assumed {
+				t, err := env.evalClause(m.E)
+				if err != nil {
+					c.errorf("monitor_assume of %s: %v", gd.structT, err)
+					continue
+				}
+				c.addFact(st, t)
+				c.trusted["history assumption on "+gd.structT+" (assumed at every lock acquisition, never proved): "+m.Text] = true
+			}
 			if c.dry == 0 {
 				sn := st.clone()
 				sn.snaps = nil
